@@ -298,6 +298,116 @@ class SR:
         return False
 
 
+class SI:
+    """symbolic (mathematical) integer"""
+    __slots__ = ('e',)
+
+    def __init__(self, e):
+        self.e = e
+
+    @staticmethod
+    def t(o):
+        if isinstance(o, SI):
+            return o.e
+        if isinstance(o, (bool, np.bool_)):
+            return z3.IntVal(int(o))
+        if isinstance(o, (int, np.integer)):
+            return z3.IntVal(int(o))
+        raise Unsupported('integer operation with %r' % type(o))
+
+    def __add__(self, o):
+        return SI(self.e + SI.t(o))
+
+    __radd__ = __add__
+
+    def __sub__(self, o):
+        return SI(self.e - SI.t(o))
+
+    def __rsub__(self, o):
+        return SI(SI.t(o) - self.e)
+
+    def __mul__(self, o):
+        return SI(self.e * SI.t(o))
+
+    __rmul__ = __mul__
+
+    def __floordiv__(self, o):
+        if not isinstance(o, (int, np.integer)) or int(o) <= 0:
+            raise Unsupported('floor division by a non-constant or non-positive divisor')
+        return SI(self.e / z3.IntVal(int(o)))
+
+    def __mod__(self, o):
+        if not isinstance(o, (int, np.integer)) or int(o) <= 0:
+            raise Unsupported('modulo by a non-constant or non-positive divisor')
+        return SI(self.e % z3.IntVal(int(o)))
+
+    def __neg__(self):
+        return SI(-self.e)
+
+    def __lt__(self, o):
+        return sb(self.e < SI.t(o))
+
+    def __le__(self, o):
+        return sb(self.e <= SI.t(o))
+
+    def __gt__(self, o):
+        return sb(self.e > SI.t(o))
+
+    def __ge__(self, o):
+        return sb(self.e >= SI.t(o))
+
+    def __eq__(self, o):
+        return sb(self.e == SI.t(o))
+
+    def __ne__(self, o):
+        return sb(self.e != SI.t(o))
+
+    def __hash__(self):
+        return id(self)
+
+    def __index__(self):
+        raise Unsupported('a symbolic integer used as an index / size')
+
+    def __int__(self):
+        raise Unsupported('int() of a symbolic integer')
+
+    def __format__(self, spec):
+        return 'SI'
+
+    def __repr__(self):
+        return 'SI(%s)' % self.e
+
+
+class Rng:
+    """model of np.arange(n)[start:start+length] for symbolic bounds: a contiguous range of integers"""
+
+    def __init__(self, start, length):
+        self.start, self.length = start, length
+
+    def __len__(self):
+        raise Unsupported('len() of a symbolic range')
+
+
+def array_split_model(r, k):
+    """documented behaviour of numpy.array_split on a 1-d array of length n: the first n % k sections have n // k + 1 elements,
+    the others n // k (validated against the real numpy on every run)"""
+    n = r.length
+    q, rem = n // k, n % k
+    out = []
+    for i in range(k):
+        extra = rem if isinstance(rem, int) else None
+        if isinstance(n, int):
+            start = i * q + min(i, rem)
+            length = q + (1 if i < rem else 0)
+        else:
+            lt = (rem > i)
+            mi = SI(z3.If(rem.e > i, z3.IntVal(i), rem.e))
+            start = q * i + mi
+            length = q + SI(z3.If(rem.e > i, z3.IntVal(1), z3.IntVal(0)))
+        out.append(Rng(r.start + start, length))
+    return out
+
+
 def _nonfinite_arith(s, o, f, swap):
     if math.isnan(o):
         return o
@@ -577,7 +687,7 @@ KEEP_OBJECT = [False]   # during symbolic runs float conversions keep object arr
 
 
 def _is_sym(v):
-    return isinstance(v, (SR, SB, Dual))
+    return isinstance(v, (SR, SB, Dual, SI))
 
 
 def _has_sym(a):
@@ -672,6 +782,16 @@ class NPProxy(types.ModuleType):
     def atleast_2d(self, *objs):
         out = [(_wrap(np.atleast_2d(np.asarray(o, dtype=object))) if _has_sym(o) else np.atleast_2d(o)) for o in objs]
         return out[0] if len(out) == 1 else out
+
+    def arange(self, *a, **k):
+        if len(a) == 1 and isinstance(a[0], SI):
+            return Rng(0, a[0])
+        return np.arange(*a, **k)
+
+    def array_split(self, ary, k, *a, **kw):
+        if isinstance(ary, Rng):
+            return array_split_model(ary, int(k))
+        return np.array_split(ary, k, *a, **kw)
 
     def isnan(self, x):
         if _is_sym(x):
